@@ -907,7 +907,7 @@ pub fn run_patches_opts(h: &mut Harness, body: &C03Doc, strict: bool, intact: &[
             Ok(()) if model.blocked && patch_intact => {
                 h.violate(
                     "ok-but-blocked",
-                    format!("patch {} reported success although a regular file sits where it had to create a directory", pi),
+                    format!("patch {} reported success although the reference cannot apply it (a regular file sits where it had to create a directory, or a write reaches beyond the largest file the disk holds)", pi),
                 );
                 return PatchRun { all_ok: false, applied };
             }
